@@ -51,6 +51,7 @@ def Call.outcome (c : Call) : Outcome :=
   if r.n = 0 then
     (if guard_vstack c.fdelSize c.hSize then .value else .valueError)
   else if !r._multicomplex_middle_name_guard0 then .valueError
+  else if !guard_some_steps c.numSteps then .valueError          -- `_get_steps`: zero steps are dropped, none may be left
   else if isComplexStep c.method && !(guard_real_x c.xComplex && guard_real_fx c.fComplex) then .valueError
   else if !(match c.cls with
             | .jacobian | .gradient => guard_vstack_jacobian c.fdelSize c.hSize
